@@ -8,8 +8,8 @@ from .C03 import gen_bars
 from .C09 import gen_cp
 
 ID = "C10"
-CASES = {"quick": 5000, "thorough": 100000}
-MIN_NONTRIVIAL = {"quick": 1200, "thorough": 25000}
+CASES = {"quick": 5000, "thorough": 900000}
+MIN_NONTRIVIAL = {"quick": 1200, "thorough": 55036}
 REQUIRED = ["p-norm == (sum of integrals of |f|^p)^(1/p)", "sup norm == max |ordinate|", "finite real", "homogeneous |c|",
             "triangle inequality", "||P-P|| == 0", "sup||L(D1)-L(D2)|| <= bottleneck(D1,D2)", "grid: p-norm == integral of the "
             "interpolated samples", "grid: sup norm == max |value|"]
